@@ -63,12 +63,12 @@ BASES = {
         }, "entries": ["f0"]},
     # a struct type defined in one module and used by functions of others (the using module imports the defining one)
     "sharedstruct": {
-        "globals": "", "types": {"f2": "struct ST { int fld; float w; }"},
+        "globals": "", "types": {"f2": "struct ST { int fld; float w; int[2] arr; float3 v; }"},
         "funcs": {
             "f0": ("export function f0(int a) -> int { ST t = f2(a); t.fld = t.fld + 1; return f3(t) + f1(a); }", ["f2", "f3", "f1"]),
             "f1": ("function f1(int a) -> int { return a - 1; }", []),
-            "f2": ("function f2(int a) -> ST { ST s; s.fld = a; s.w = 0.5; return s; }", []),
-            "f3": ("function f3(ST s) -> int { return s.fld * 2; }", ["f2"]),
+            "f2": ("function f2(int a) -> ST { ST s; s.fld = a; s.w = 0.5; s.arr[1] = a + 2; s.v.y = 1.5; return s; }", []),
+            "f3": ("function f3(ST s) -> int { return s.fld * 2 + s.arr[1] * 100; }", ["f2"]),
         }, "entries": ["f0"]},
     "tworoots": {
         "globals": "", "types": "",
@@ -223,6 +223,9 @@ def w_partition(job):
         # module names in every order relative to the import graph (a linker that walks names in sorted order must not care)
         names_pool = ["ma", "mb", "mc"][:len(parts)]
         perms = list(itertools.permutations(names_pool)) if len(parts) > 1 else [tuple(names_pool)]
+        if len(parts) > 1:
+            # look-alike names: one is a prefix of the other, or they differ only in letters that also occur in ".nslir"
+            perms = perms[:1] + list(itertools.permutations(["light", "lights", "lin"][:len(parts)])) + perms[1:]
         for placement, naming in [(pl, nmg) for pl in placements for nmg in (perms if pl == "first" else perms[:1])]:
             nm = lambda mi, naming=naming: naming[mi]
             if placement != "first" and not any(deps.values()):
